@@ -484,6 +484,11 @@ def c08_extra(ctx):
             nxt = ' R%d?' % (i + 1) if i + 1 < n else ''
             rules.append("R%d <- 'a%s'%s" % (i, chr(98 + i % 20), nxt))
         add('rules%d' % n, hdr + '\n'.join(rules) + '\n')
+    # more than 255 rule names, fewer than 256 of them reachable: the rule-constant type must follow the names
+    rules = ['R0 <- ' + ' / '.join('R%d' % i for i in range(1, 60))]
+    for i in range(1, 300):
+        rules.append("R%d <- 'a%s'" % (i, chr(98 + i % 20)))
+    add('rules300_mostly_unused', hdr + '\n'.join(rules) + '\n')
     add('import_plain', 'package g\n\nimport "strings"\n\ntype P Peg {\n Trace string\n STrace string\n}\n\nR0 <- <\'a\'+> { p.Trace += strings.ToUpper(text) }\n')
     add('import_alias', 'package g\n\nimport str "strings"\n\ntype P Peg {\n Trace string\n STrace string\n}\n\nR0 <- <\'a\'+> { p.Trace += str.ToUpper(text) }\n')
     add('import_group', 'package g\n\nimport (\n"strings"\n"unicode"\n)\n\ntype P Peg {\n Trace string\n STrace string\n}\n\nR0 <- <.> { if unicode.IsLetter([]rune(text)[0]) { p.Trace += strings.ToUpper(text) } }\n')
@@ -507,7 +512,7 @@ def c08_extra(ctx):
             ctx.add('spec', 'extra/generate', 'generation failed for an accepted grammar (%s, opts "%s"): %s' % (r['name'], r['opts'], (x.get('compileError') or x.get('syntaxError') or x.get('panic') or '')[:200]),
                     {'grammar': r['text'][:3000], 'opts': r['opts'], 'name': r['name'], 'resp': {k: v for k, v in x.items() if k not in ('tree', 'go', 'ir')}})
             continue
-        if x.get('warnings'):
+        if x.get('warnings') and r['name'] != 'rules300_mostly_unused':
             ctx.add('spec', 'extra/warnings', 'unexpected warning for %s: %s' % (r['name'], x['warnings'][:200]), {'grammar': r['text'][:3000], 'opts': r['opts'], 'name': r['name']})
         M.add(r['id'], x['go'], 'n' not in r['opts'])
         # gofmt idempotence
